@@ -123,6 +123,7 @@ def execute(case):
 
     def src_set(i, pn, val, tag):
         invalid_for = [n for n, (fn, deps) in links.items() if (i, pn) in deps and not _valid(n, fn({**mv, (i, pn): val}))]
+        unchanged = mv[(i, pn)] == val
         try:
             setattr(srcs[i], pn, val)
         except ValueError:
@@ -133,8 +134,8 @@ def execute(case):
             if (i, pn) in deps:
                 if n in invalid_for or invalid_for:
                     stale.add(n)       # one rejected target aborts the whole propagation: judge again after the next update
-                else:
-                    stale.discard(n)
+                elif not unchanged:
+                    stale.discard(n)   # (an assignment of the value the source already has announces nothing)
         if hist["relinked"]:
             hist["after_relink_src_updates"] += 1
 
@@ -148,16 +149,18 @@ def execute(case):
             i = op[1]
             bad = [n for n, (fn, deps) in links.items()
                    if not _valid(n, fn({**mv, (i, "v"): op[2], (i, "w"): op[3]})) and any(si == i for si, _ in deps)]
+            old_vals = {"v": mv[(i, "v")], "w": mv[(i, "w")]}
             try:
                 srcs[i].param.update(v=op[2], w=op[3])
             except ValueError:
                 pass
             mv[(i, "v")], mv[(i, "w")] = srcs[i].v, srcs[i].w
+            changed = {p for p, v in (("v", op[2]), ("w", op[3])) if old_vals[p] != v}
             for n, (fn, deps) in links.items():
                 if any(si == i and p in ("v", "w") for si, p in deps):
                     if bad:
                         stale.add(n)
-                    else:
+                    elif any(si == i and p in changed for si, p in deps):
                         stale.discard(n)
         elif k == "relink":
             n, spec = op[1], op[2]
